@@ -37,6 +37,21 @@ HISTORY = {
  'C17-m4': 'missed at first; caught since the URL whitespace probe',
  'C19-m4': 'owned by C20 (write fault; C19 has no I/O-fault dimension): caught by C20 quick',
  'C20-m4': 'missed at first; caught since late-failing in-place inputs are judged against the original',
+ 'C01-m7': 'missed at first; caught since the flowmerge family (then-branch x flow-statement branch x following statement, all truth assignments)',
+ 'C01-m8': 'missed at first; caught since the quotes family (literals over quote/backtick/escaped-quote alphabets, as property names and strings, compared by value)',
+ 'C02-m7': 'missed at first; caught since flatten_blocks (bindings that move when blocks are flattened, original names = first short names) and the MoveAfterRename guard in JsRenamer',
+ 'C02-m8': 'missed at first (only Version 0 was run); caught since every program gets a Version from {0,5,2015,2018,2019,2020} and the catch_unused family',
+ 'C03-m8': 'missed at first; caught since the entity family (all 2 231 names of the standard, in text, title and attribute values, compared by decoded text)',
+ 'C04-m8': 'missed at first; caught since strings with inner whitespace runs in every raw-byte context (custom properties, unknown at-rules, passed-through declarations)',
+ 'C05-m7': 'missed at first; caught since the compact family (shortest spellings, no optional separators) and the fixpoint family (the minifier output fed back)',
+ 'C09-m7': 'missed at first', 'C09-m8': 'missed at first', 'C10-m7': 'missed at first', 'C10-m8': 'missed at first',
+ 'C12-m7': 'ended as exit 2 at first (rejection depended on a dirty buffer from an earlier session); caught since call-history sessions and history re-runs',
+ 'C12-m8': 'missed at first (the relation accepted either outcome for Content-Type-without-minifier x extension-with-minifier); caught since the Content-Type decides',
+ 'C13-m8': 'missed at first; caught since failing-after-output shapes through every entry point and the PoolBuf negative control',
+ 'C14-m8': 'missed at first; caught since failing-writer doubles of six shapes (Write only; Bytes/String/Len; WriteString; ReadFrom; ResponseWriter-like; all)',
+ 'C17-m7': 'missed at first; caught since the text-after-element probe (RawAfterProbeOK)',
+ 'C17-m8': 'missed at first; caught since the element-box probe (SideProbeOK: all 16 blank combinations around every element)',
+ 'C19-m8': 'missed at first; caught since bundle x every way of resolving the media type, with contents where the separator matters',
 }
 res = {}
 for log in sys.argv[1:]:
